@@ -1,6 +1,6 @@
 SPECIFICATION Spec
 CONSTANTS
-  Kinds = {"line", "block", "mlmixed"}
+  Kinds = {"line", "block", "mlmixed", "ownlinec"}
   MaxComments = 1
   Groups = {"stmt", "call", "expr", "block", "func", "table", "luau"}
 INVARIANT Emit
